@@ -58,6 +58,22 @@ func ruleRenderReturnsFlush(w *World, r *Report) {
 							continue
 						}
 					}
+					// a method value of a per-call object (pass.visit): the writer is a field of that object
+					if cf, isF := mc.Fn.(*ssa.Function); isF && w.unwrapBound(cf) != cf && len(mc.Bindings) == 1 {
+						if obj, isAl := mc.Bindings[0].(*ssa.Alloc); isAl {
+							for _, ref := range referrersOf(obj) {
+								fa, ok := ref.(*ssa.FieldAddr)
+								if !ok {
+									continue
+								}
+								for _, r2 := range referrersOf(fa) {
+									if st, ok := r2.(*ssa.Store); ok && st.Addr == ssa.Value(fa) && sa.isBufWriter(st.Val.Type()) {
+										captured = st.Val
+									}
+								}
+							}
+						}
+					}
 					for _, bnd := range mc.Bindings {
 						v := bnd
 						// captured by reference: binding is the Alloc cell; find what is stored
@@ -89,6 +105,46 @@ func ruleRenderReturnsFlush(w *World, r *Report) {
 			v := ret.Results[0]
 			rkey := fmt.Sprintf("%s: return #%d", key, nret)
 			switch x := v.(type) {
+			case *ssa.Phi:
+				// `err := Walk(…); if err == nil { err = Flush() }; return err`: each operand is judged on its own edge
+				okAll := x.Block() == b
+				var whyBad string
+				for i, e := range x.Edges {
+					if !okAll {
+						break
+					}
+					pred := b.Preds[i]
+					if c, isCall := e.(*ssa.Call); isCall && c == walkCall {
+						// the edge pred -> b must be the "walk error is non-nil" edge
+						nonNil := false
+						if iff, isIf := pred.Instrs[len(pred.Instrs)-1].(*ssa.If); isIf && len(pred.Succs) == 2 {
+							if y, isNil, isTest := nilTest(iff.Cond); isTest && y == ssa.Value(walkCall) {
+								for si, sx := range pred.Succs {
+									if sx == b && (si == 0) != isNil {
+										nonNil = true
+									}
+								}
+							}
+						}
+						if !nonNil {
+							okAll, whyBad = false, "the walk's error reaches the return on an edge where it was not found non-nil"
+						}
+						continue
+					}
+					if c, isCall := e.(*ssa.Call); isCall {
+						com := c.Common()
+						if com.IsInvoke() && com.Method.Name() == "Flush" && sa.isBufWriter(com.Value.Type()) && sameWriter(com.Value, captured) {
+							continue
+						}
+					}
+					okAll, whyBad = false, "an operand is neither the walk's error nor Flush() of the render functions' writer: "+shortVal(e)
+				}
+				if okAll {
+					r.OK(rkey+" (walk error or Flush)", w.InstrPos(ret), "returns the walk's error where it is non-nil, Flush() of the render functions' writer otherwise")
+				} else {
+					r.Bad(rkey, w.InstrPos(ret), "returns "+shortVal(v)+": "+whyBad)
+				}
+				continue
 			case *ssa.Call:
 				if x == walkCall {
 					// must be on the err != nil path
